@@ -165,7 +165,7 @@ Proof.
     rewrite E. tauto.
   - destruct H as [H|H]; [|subst; simpl; split; [discriminate | tauto]].
     destruct v; simpl in H; try discriminate; simpl; tauto.
-Qed.
+Time Qed.
 
 Lemma is_accept_spec : forall v, is_accept v = true <-> v = Accept.
 Proof. destruct v; simpl; split; intros H; try reflexivity; discriminate. Qed.
@@ -181,7 +181,7 @@ Proof.
   intros f tc ie sc H Hr. unfold agree_iwp in H. apply orb_true_iff in H. destruct H as [H|H].
   - apply regular_b_spec in Hr. rewrite Hr in H. discriminate.
   - exact (eqb_iff _ _ _ _ (is_accept_spec _) (wf_prior_iwp_b_spec f tc ie sc) H).
-Qed.
+Time Qed.
 
 Lemma single_field_ok_all : forall f, single_field_ok f = true.
 Proof. intros []; vm_compute; reflexivity. Qed.
@@ -191,7 +191,7 @@ Proof.
   intros f b Hb. apply regular_b_spec.
   assert (E : forallb (fun b => regular_b (b_tc b)) (bases f) = true) by (destruct f; vm_compute; reflexivity).
   rewrite forallb_forall in E. apply E. exact Hb.
-Qed.
+Time Qed.
 
 Theorem prior_iwp_single_field_reflection_bounded :
   forall f b x, In b (bases f) -> In x universe ->
@@ -208,7 +208,7 @@ Proof.
   - intros Hrx. apply (agree_iwp_iff f x _ _ H1 Hrx).
   - apply agree_iwp_iff; assumption.
   - apply agree_iwp_iff; assumption.
-Qed.
+Time Qed.
 
 Lemma agree_exp_iff : forall ode tc ie sc,
     agree_exp ode tc ie sc = true -> Regular tc ->
@@ -217,7 +217,7 @@ Proof.
   intros ode tc ie sc H Hr. unfold agree_exp in H. apply orb_true_iff in H. destruct H as [H|H].
   - apply regular_b_spec in Hr. rewrite Hr in H. discriminate.
   - exact (eqb_iff _ _ _ _ (is_accept_spec _) (wf_prior_exp_b_spec Dense ode tc ie sc) H).
-Qed.
+Time Qed.
 
 Lemma exp_ok_true : exp_ok = true.
 Proof. vm_compute. reflexivity. Qed.
@@ -238,7 +238,7 @@ Proof.
   - intros Hrx. apply (agree_exp_iff o x _ _ H1 Hrx).
   - apply agree_exp_iff; assumption.
   - apply agree_exp_iff; assumption.
-Qed.
+Time Qed.
 
 (* the exponential prior for the non-dense factorisations is never constructed *)
 Lemma prior_exp_not_implemented : forall f ode tc ie sc, f <> Dense -> prior_exp f ode tc ie sc = OtherErr.
